@@ -1,1 +1,32 @@
-fn main(){}
+//! cfgprobe <ENV|/path/to/file>: runs the product's own make_config + is_valid_config and prints the
+//! effective settings as one JSON line. exit 0 = accepted, 1 = refused (error or invalid), 101 = panic.
+use roughenough::config::{is_valid_config, make_config};
+use serde_json::json;
+
+fn main() {
+    let arg = std::env::args().nth(1).expect("usage: cfgprobe <ENV|file>");
+    let cfg = match make_config(&arg) {
+        Ok(c) => c,
+        Err(e) => {
+            println!("{}", json!({"refused": format!("{:?}", e)}));
+            std::process::exit(1);
+        }
+    };
+    let valid = is_valid_config(cfg.as_ref());
+    let out = json!({
+        "valid": valid,
+        "port": cfg.port(),
+        "interface": cfg.interface(),
+        "seed": rv::refcodec::hex(&cfg.seed()),
+        "batch_size": cfg.batch_size(),
+        "status_interval": cfg.status_interval().as_secs(),
+        "health_check_port": cfg.health_check_port(),
+        "client_stats": cfg.client_stats_enabled(),
+        "fault_percentage": cfg.fault_percentage(),
+        "num_workers": cfg.num_workers() as u64,
+        "persistence_directory": cfg.persistence_directory().map(|p| p.display().to_string()),
+        "kms_protection": format!("{}", cfg.kms_protection()),
+    });
+    println!("{}", out);
+    std::process::exit(if valid { 0 } else { 1 });
+}
